@@ -60,6 +60,8 @@ structure Table where
   ssShared : Bool
   createPassesShared : Bool
   ctorOpensShared : Bool
+  /-- every locking section of a state store takes a lock the store object created for itself -/
+  lockPerStore : Bool
   unknowns : Nat
   secs : List Sec
   ops : List (Nat × String × List String)
@@ -82,6 +84,7 @@ def Sec.ofRaw (r : String × Nat × Nat × Bool × (Bool × Bool × Bool × Bool
 def table : Table :=
   { wsShared := GenSqliteConn.wsShared, ssShared := GenSqliteConn.ssShared,
     createPassesShared := GenSqliteConn.createPassesShared, ctorOpensShared := GenSqliteConn.ctorOpensShared,
+    lockPerStore := GenSqliteConn.lockPerStore,
     unknowns := GenSqliteConn.unknowns, secs := GenSqliteConn.secs.map Sec.ofRaw,
     ops := GenSqliteConn.ops, staticOps := GenSqliteConn.staticOps }
 
@@ -267,5 +270,78 @@ def instanceProvider (t : Table) : Bool :=
   t.secs.all fun sec => !(instanceSecs t).contains sec.name || (sec.acquire == .provider)
 
 def tableNoLeak (t : Table) : Bool := t.secs.all secNoLeak
+
+/-! ## the locks of the state stores
+
+`set_state` / `clear` hold the store's lock for one await-free section; `edit_state`
+(and `set`, which goes through it) holds it **across the awaits of its body**.  Which
+lock a store object takes is the only thing the connection mode could change here, so the
+model keeps exactly that: a map from store objects to lock identities, and the
+`asyncio.Lock` discipline (not re-entrant; a request waits while the lock is held or
+somebody is queued for it; a release hands the lock to the oldest waiter).  What the
+tasks do between their lock actions (sections, events, awaits) is abstracted: a
+schedule is an arbitrary list of lock actions. -/
+
+/-- The lock store object `i` takes.  With `lockPerStore` it is the object's own lock
+(`i + 1`), whatever connection the object was given.  Otherwise the model assumes the
+coarsest alternative: the lock travels with the shared connection (lock `0` for every
+object that was handed it). -/
+def lockOf (t : Table) (stores : List Bool) (i : Nat) : Option Nat :=
+  match stores[i]? with
+  | none => none
+  | some given => some (if t.lockPerStore || !given then i + 1 else 0)
+
+inductive LAct where
+  | acq (task obj : Nat)   -- `await lock.acquire()` of store object `obj` by `task`
+  | rel (task obj : Nat)   -- `lock.release()`
+  deriving DecidableEq, Repr
+
+inductive LRes where
+  | got                      -- acquired without waiting
+  | wait                     -- queued behind the holder / earlier waiters
+  | next (t : Option Nat)    -- released; the lock goes to this waiter (if any)
+  | notHeld                  -- release of a lock the task does not hold
+  | noStore
+  deriving DecidableEq, Repr
+
+structure LSt where
+  held : List (Nat × Nat) := []      -- (lock, task)
+  waiting : List (Nat × Nat) := []   -- (lock, task), oldest first
+  deriving DecidableEq, Repr
+
+def lockStep (t : Table) (stores : List Bool) (a : LAct) (s : LSt) : LSt × LRes :=
+  match a with
+  | .acq task obj =>
+    match lockOf t stores obj with
+    | none => (s, .noStore)
+    | some l =>
+      if s.held.any (fun p => p.1 == l) || s.waiting.any (fun p => p.1 == l) then
+        ({ s with waiting := s.waiting ++ [(l, task)] }, .wait)
+      else ({ s with held := (l, task) :: s.held }, .got)
+  | .rel task obj =>
+    match lockOf t stores obj with
+    | none => (s, .noStore)
+    | some l =>
+      if s.held.contains (l, task) then
+        let held' := s.held.erase (l, task)
+        match s.waiting.find? (fun p => p.1 == l) with
+        | none => ({ s with held := held' }, .next none)
+        | some w => ({ held := w :: held', waiting := s.waiting.erase w }, .next (some w.2))
+      else (s, .notHeld)
+
+def runLocks (t : Table) (stores : List Bool) : List LAct → LSt → LSt × List LRes
+  | [], s => (s, [])
+  | a :: as, s =>
+    let r := lockStep t stores a s
+    let rs := runLocks t stores as r.1
+    (rs.1, r.2 :: rs.2)
+
+/-- The lock part of the property: whichever store objects were handed the shared
+connection (all of them in single-connection mode, none with per-call connections),
+every schedule of lock actions is answered the same way — in particular a request
+that is granted at once, or eventually, in one mode is so in the other. -/
+def LocksAgree (t : Table) : Prop :=
+  ∀ (s1 s2 : List Bool), s1.length = s2.length → ∀ (acts : List LAct),
+    (runLocks t s1 acts {}).2 = (runLocks t s2 acts {}).2
 
 end SqliteConn
